@@ -170,7 +170,19 @@ type ccfg struct {
 	Handlers         []hcfg `yaml:"handlers"`
 }
 
-var tmpDir string
+var (
+	tmpDir     string
+	scratchSeq int
+)
+
+// freshFile gives every handler instance its own empty file: the query writers load what the file holds and
+// write asynchronously, a shared file would leak state (and half-written lines) from one op into the next.
+func freshFile(prefix string) string {
+	scratchSeq++
+	p := scratch(fmt.Sprintf("%s-%d.log", prefix, scratchSeq))
+	os.Remove(p)
+	return p
+}
 
 func scratch(name string) string {
 	if tmpDir == "" {
@@ -199,7 +211,7 @@ func parseCfgArgs(a []string) (cfg ccfg, next int) {
 	cfg.Version = "0.85.0"
 	cfg.IgnoreParseError = a[0] == "1"
 	if a[1] == "1" {
-		cfg.ParseErrorsLog = scratch("unparsed.log")
+		cfg.ParseErrorsLog = freshFile("unparsed")
 	}
 	nh := core.Atoi(a[2])
 	i := 3
@@ -239,12 +251,23 @@ func parseCfgArgs(a []string) (cfg ccfg, next int) {
 		case "I":
 			cfg.Handlers = append(cfg.Handlers, hcfg{Handler: "query_ignore", Queries: raws(list())})
 		case "C":
-			cfg.Handlers = append(cfg.Handlers, hcfg{Handler: "query_capture", FilePath: scratch("capture.log")})
+			cfg.Handlers = append(cfg.Handlers, hcfg{Handler: "query_capture", FilePath: freshFile("capture")})
 		default:
 			panic("harness: bad handler kind " + kind)
 		}
 	}
 	return cfg, i
+}
+
+func cleanupFiles(cfg ccfg) {
+	if cfg.ParseErrorsLog != "" {
+		os.Remove(cfg.ParseErrorsLog)
+	}
+	for _, h := range cfg.Handlers {
+		if h.FilePath != "" {
+			os.Remove(h.FilePath)
+		}
+	}
 }
 
 func yamlOf(cfg ccfg) []byte {
@@ -259,6 +282,7 @@ func yamlOf(cfg ccfg) []byte {
 func opHandle(a []string) string {
 	cfg, raw := parseHandleArgs(a)
 	censor := acracensor.NewAcraCensor()
+	defer cleanupFiles(cfg)
 	defer censor.ReleaseAll()
 	if err := censor.LoadConfiguration(yamlOf(cfg)); err != nil {
 		return "cfgerr"
